@@ -22,7 +22,7 @@ Expected(t) ==
     [] t.rule = "MD019" -> Verdict_MD019(t.B)
     [] t.rule = "MD023" -> Verdict_MD023(t.B)
     [] t.rule = "MD003" -> Verdict_MD003(t.B, t.cfg)
-    [] t.rule = "MD024" -> Verdict_MD024(t.B)
+    [] t.rule = "MD024" -> Verdict_MD024(t.B, t.cfg)
     [] t.rule = "MD026" -> Verdict_MD026(t.B, [punctuation |-> SetOf(t.cfg.punctuation)])
     [] t.rule = "MD041" -> Verdict_MD041(t.L, t.B, t.cfg)
     [] t.rule = "MD022" -> Verdict_MD022(t.L, t.B)
